@@ -14,7 +14,9 @@
  *   case NAME
  *   life TYPE R C NF FORM REL K NLEAK (i j)* NPI pi*    start a vnacal_new_t
  *   add SID EP NOMAP SR SC SDIAG MR MC NMAP map* NVALS val*
- *   solve | addcal | apply DUT | saveeq | unrelated | compare REL | free
+ *   solve | addcal | apply DUT MODE | saveeq | unrelated N | compare REL | free
+ *     (apply MODE: 0 all calibration frequencies, 1 first/middle/last,
+ *      2 last only, 3 one in the middle; unrelated N: N scalar standards)
  *   setf VALID        (the life line sets the vector itself unless REL is
  *                      "nosetf")
  *   end
@@ -36,7 +38,7 @@
 #define MAXP CQ_MAXP
 #define MAXF CQ_MAXF
 #define MAXSTEPS 160
-#define MAXGRID 16
+#define MAXGRID 32
 
 static int g_debug;
 
@@ -195,10 +197,12 @@ static void load_script(const char *path)
 	} else if (strcmp(cmd, "apply") == 0) {
 	    st.op = OP_APPLY;
 	    st.dut = next_int(&p);
+	    st.k = next_int(&p);
 	} else if (strcmp(cmd, "saveeq") == 0) {
 	    st.op = OP_SAVEEQ;
 	} else if (strcmp(cmd, "unrelated") == 0) {
 	    st.op = OP_UNRELATED;
+	    st.k = next_int(&p);
 	} else if (strcmp(cmd, "compare") == 0) {
 	    st.op = OP_COMPARE;
 	    snprintf(st.rel, sizeof(st.rel), "%s", next_tok(&p));
@@ -904,7 +908,9 @@ static double tolerance(const life_t *lp)
 
 static void do_apply(life_t *lp, const step_t *sp)
 {
-    const int P = lp->P, R = lp->R, C = lp->C, nf = lp->nf;
+    const int P = lp->P, R = lp->R, C = lp->C;
+    int nf = 0, sel[MAXF];
+    double fsel[MAXF];
     static double complex mv[MAXP * MAXP][MAXF], av[MAXP * MAXP][MAXF];
     double complex *mp[MAXP * MAXP], *ap[MAXP * MAXP];
     double complex strue[MAXF][MAXP * MAXP];
@@ -914,12 +920,34 @@ static void do_apply(life_t *lp, const step_t *sp)
 
     if (!lp->alive)
 	return;
+    /* which calibration frequencies the device is measured at */
+    switch (lp->nf >= 3 ? sp->k : 0) {
+    case 1:
+	sel[nf++] = 0;
+	sel[nf++] = lp->nf / 2;
+	sel[nf++] = lp->nf - 1;
+	break;
+    case 2:
+	sel[nf++] = lp->nf - 1;
+	break;
+    case 3:
+	sel[nf++] = lp->nf / 2;
+	break;
+    default:
+	for (int f = 0; f < lp->nf; ++f)
+	    sel[nf++] = f;
+	break;
+    }
+    for (int f = 0; f < nf; ++f)
+	fsel[f] = lp->freq[sel[f]];
     for (int f = 0; f < nf; ++f) {
 	double complex m[MAXP * MAXP], a[MAXP * MAXP], b[MAXP * MAXP];
+	const etsim_t *net = &lp->net[sel[f]];
+	const int refk = lp->fref[sel[f]];
 
-	make_dut(lp, sp->dut, lp->fref[f], strue[f]);
+	make_dut(lp, sp->dut, refk, strue[f]);
 	if (R == C) {
-	    if (ets_measure(&lp->net[f], strue[f], m) != 0)
+	    if (ets_measure(net, strue[f], m) != 0)
 		die("simulator: singular DUT", NULL);
 	} else if (P == 2) {
 	    /* 2x1 / 1x2: second column (row) measured with the DUT turned */
@@ -927,8 +955,8 @@ static void do_apply(life_t *lp, const step_t *sp)
 		strue[f][1], strue[f][0] };
 	    double complex m1[2], m2[2];
 
-	    if (ets_measure(&lp->net[f], strue[f], m1) != 0 ||
-		    ets_measure(&lp->net[f], srev, m2) != 0)
+	    if (ets_measure(net, strue[f], m1) != 0 ||
+		    ets_measure(net, srev, m2) != 0)
 		die("simulator: singular DUT", NULL);
 	    if (R == 2) {	/* m1 = [m11; m21], m2 = [m22; m12] */
 		m[0] = m1[0]; m[2] = m1[1]; m[3] = m2[0]; m[1] = m2[1];
@@ -950,7 +978,7 @@ static void do_apply(life_t *lp, const step_t *sp)
 	    }
 	    ac = P;
 	    make_ab(lp, P, P, m, key6(g_seed, g_case_key, 0xA99,
-			(uint64_t)sp->dut, (uint64_t)lp->fref[f], 0), a, b);
+			(uint64_t)sp->dut, (uint64_t)refk, 0), a, b);
 	    for (int i = 0; i < ar * ac; ++i)
 		av[i][f] = a[i];
 	    for (int i = 0; i < P * P; ++i)
@@ -969,12 +997,13 @@ static void do_apply(life_t *lp, const step_t *sp)
 	die("vnadata_alloc failed", NULL);
     vt_cb_reset();
     if (lp->form)
-	rc = CALL(vnacal_apply(lp->vcp, lp->ci, lp->freq, nf, ap, ar, ac,
+	rc = CALL(vnacal_apply(lp->vcp, lp->ci, fsel, nf, ap, ar, ac,
 		    mp, P, P, vdp));
     else
-	rc = CALL(vnacal_apply_m(lp->vcp, lp->ci, lp->freq, nf, mp, P, P,
+	rc = CALL(vnacal_apply_m(lp->vcp, lp->ci, fsel, nf, mp, P, P,
 		    vdp));
-    lp->applied_ok = 0;
+    if (nf == lp->nf)
+	lp->applied_ok = 0;
     if (rc == 0) {
 	double tau = tolerance(lp);
 
@@ -987,19 +1016,21 @@ static void do_apply(life_t *lp, const step_t *sp)
 		    double complex v = vnadata_get_cell(vdp, f, a, b);
 		    double d = cabs(v - strue[f][a * P + b]);
 
-		    lp->applied[f][a * P + b] = v;
+		    if (nf == lp->nf)
+			lp->applied[f][a * P + b] = v;
 		    if (!(d <= tau))
 			recovered = 0;
 		    if (!(d <= worst))
 			worst = d;
 		}
-	lp->applied_ok = 1;
+	if (nf == lp->nf)
+	    lp->applied_ok = 1;
 	if (g_debug)
 	    fprintf(stderr, "apply: worst %.3e tau %.3e cond %.3e %s\n",
 		    worst, tau, lp->cond, recovered ? "" : "NOT RECOVERED");
     }
-    vt_put("{\"e\":\"Apply\",\"form\":\"%s\",\"mr\":%d,\"mc\":%d,\"dut\":%d",
-	    lp->form ? "ab" : "m", P, P, sp->dut % 4);
+    vt_put("{\"e\":\"Apply\",\"form\":\"%s\",\"mr\":%d,\"mc\":%d,\"dut\":%d,"
+	    "\"nfa\":%d", lp->form ? "ab" : "m", P, P, sp->dut % 4, nf);
     put_ret(rc == 0);
     vt_put(",\"x\":{\"recovered\":%d}}", rc == 0 ? recovered : 0);
     vt_end_line();
@@ -1054,32 +1085,47 @@ static void do_saveeq(life_t *lp, const char *name)
 
 /* an unrelated little calibration in the same vnacal_t (not logged as
  * CalFlow events: it belongs to another life) */
-static void do_unrelated(life_t *lp)
+static void do_unrelated(life_t *lp, int nscalar)
 {
     vnacal_new_t *vnp;
     double f[2] = { 0.5e9, 7e9 };
-    static double complex mv[3][2] = {
-	{ -0.8 + 0.1 * I, -0.7 }, { 0.9, 0.8 - 0.2 * I }, { 0.05, 0.02 * I } };
+    const double complex ed = 0.05 + 0.02 * I, er = 0.9 - 0.1 * I,
+	  em = 0.1 * I;
     int s11[3] = { VNACAL_SHORT, VNACAL_OPEN, VNACAL_MATCH };
+    const double complex g3[3] = { -1.0, 1.0, 0.0 };
+    int n = nscalar > 0 ? nscalar : 3;
     int ok = 1;
 
     if (!lp->alive)
 	return;
     vt_cb_reset();
-    vnp = CALL(vnacal_new_alloc(lp->vcp, VNACAL_U8, 1, 1, 2));
+    vnp = LIB(vnacal_new_alloc(lp->vcp, VNACAL_U8, 1, 1, 2));
     if (vnp == NULL || LIB(vnacal_new_set_frequency_vector(vnp, f)) != 0)
 	ok = 0;
-    for (int i = 0; i < 3 && ok; ++i) {
-	double complex *mp[1] = { mv[i] };
+    for (int i = 0; i < n && ok; ++i) {
+	double complex g, mv[2];
+	double complex *mp[1] = { mv };
+	int h;
 
-	if (CALL(vnacal_new_add_single_reflect_m(vnp, mp, 1, 1, s11[i], 1)) != 0)
+	if (nscalar > 0) {
+	    /* scalar parameters the application keeps */
+	    g = kdisc(key6(g_seed, g_case_key, 0x0E1, (uint64_t)i, 0, 0), 0.95);
+	    h = LIB(vnacal_make_scalar_parameter(lp->vcp, g));
+	    if (h < 0)
+		ok = 0;
+	} else {
+	    g = g3[i];
+	    h = s11[i];
+	}
+	mv[0] = mv[1] = ed + er * g / (1.0 - em * g);
+	if (ok && LIB(vnacal_new_add_single_reflect_m(vnp, mp, 1, 1, h, 1)) != 0)
 	    ok = 0;
     }
     if (ok && LIB(vnacal_new_solve(vnp)) != 0)
 	ok = 0;
     if (ok && LIB(vnacal_add_calibration(lp->vcp, "unrelated", vnp)) < 0)
 	ok = 0;
-    vt_put("{\"e\":\"Unrelated\",\"done\":%d}", ok);
+    vt_put("{\"e\":\"Unrelated\",\"n\":%d,\"done\":%d}", n, ok);
     vt_end_line();
 }
 
@@ -1164,7 +1210,7 @@ static void run_case(const char *script_id, const scase_t *cp, int index)
 	case OP_ADDCAL:	do_addcal(&lives[cur], "cal"); break;
 	case OP_APPLY:	do_apply(&lives[cur], sp); break;
 	case OP_SAVEEQ:	do_saveeq(&lives[cur], "cal"); break;
-	case OP_UNRELATED: do_unrelated(&lives[cur]); break;
+	case OP_UNRELATED: do_unrelated(&lives[cur], sp->k); break;
 	case OP_COMPARE: do_compare(&lives[0], &lives[1], sp); break;
 	case OP_FREE:	life_free(&lives[cur]); break;
 	case OP_SETF:	do_setf(&lives[cur], sp->k); break;
